@@ -994,9 +994,9 @@ decLoop:
 		if !hasBalancedBlocks(dec.Value) {
 			continue
 		}
-		tempProperty := strings.ToLower(dec.Property)
+		tempProperty := asciiLower(dec.Property)
 		// (decode first: an escape may stand for an upper-case letter)
-		tempValue := strings.ToLower(removeUnicode(dec.Value))
+		tempValue := asciiLower(removeUnicode(dec.Value))
 		for _, i := range prefixes {
 			tempProperty = strings.TrimPrefix(tempProperty, i)
 		}
@@ -1228,11 +1228,30 @@ func isVoidElement(elementName string) bool {
 // stringInSlice returns true if needle exists in haystack
 func stringInSlice(needle string, haystack []string) bool {
 	for _, straw := range haystack {
-		if strings.EqualFold(straw, needle) {
+		if asciiLower(straw) == asciiLower(needle) {
 			return true
 		}
 	}
 	return false
+}
+
+// asciiLower lower-cases the letters A-Z only. CSS matches property names and
+// keywords ASCII case-insensitively: U+212A (Kelvin sign) is not a "k" and
+// U+017F (long s) is not an "s" for a browser, as they are for
+// strings.ToLower and strings.EqualFold.
+func asciiLower(s string) string {
+	for i := 0; i < len(s); i++ {
+		if c := s[i]; c >= 'A' && c <= 'Z' {
+			b := []byte(s)
+			for ; i < len(b); i++ {
+				if b[i] >= 'A' && b[i] <= 'Z' {
+					b[i] += 'a' - 'A'
+				}
+			}
+			return string(b)
+		}
+	}
+	return s
 }
 
 func isDataAttribute(val string) bool {
